@@ -6,7 +6,7 @@ CONSTANTS
   IterN = 1
   MaxOvl = 2
   MaxOps = 100
-  Kinds <- KindsAll
+  Kinds <- KindsAllF
 VIEW view
 INVARIANTS Canonical
 PROPERTIES StepLemmas
